@@ -820,3 +820,183 @@ Proof.
     unfold do_sync_data. destruct (aget (replicas s) a) as [[]|]; try apply sk_refl.
     destruct (find _ (replicas s)) as [[r0 m0]|]; [|apply sk_refl]. cbn. apply sk_of_sst. apply sst_upd_rep.
 Qed.
+
+(** ** C02 / C05: what the replicas hold after an acknowledged write, and that a failing minority
+    does not surface *)
+(** projections of a replica record that detaching, checkpoint updates and mode bookkeeping leave alone *)
+Definition data_invariant {A} (g : frep -> A) : Prop :=
+  cp_invariant g /\ (forall f b, g (f_set_open f b) = g f).
+
+Lemma di_applied : data_invariant f_applied.
+Proof. split; [exact cpi_applied|intros f b; reflexivity]. Qed.
+
+Lemma w_stop_monitoring : forall s i, w (stop_monitoring s i) = w s.
+Proof. intros s i. unfold stop_monitoring. destruct (aget (live_mon s) i); reflexivity. Qed.
+
+Lemma w_set_mode : forall s a m, w (set_mode_nolock s a m) = w s.
+Proof.
+  intros s a m. unfold set_mode_nolock. cbn [w update_vol_status upd_status].
+  destruct (aget (replicas s) a) as [[]|]; try reflexivity;
+    unfold backend_set_mode; cbn [backends upd_replicas];
+    destruct (aget (backends s) a) as [[mb ib]|]; try reflexivity;
+    destruct (mode_eqb m ERR); cbn; rewrite ?w_stop_monitoring; reflexivity.
+Qed.
+
+Lemma keeps_remove_replica : forall {A} (g : frep -> A), data_invariant g ->
+  forall s fs a x, g (wget (w (remove_replica_nolock s fs a)) x) = g (wget (w s) x).
+Proof.
+  intros A g [Hc Ho] s fs a x. unfold remove_replica_nolock.
+  destruct (negb (has_replica s a)); [reflexivity|].
+  rewrite (update_checkpoint_keeps g Hc). cbn [w update_vol_status upd_status].
+  unfold remove_backend. cbn [backends upd_replicas upd_registered].
+  match goal with |- context [aget ?B a] => destruct (aget B a) as [[mb ib]|] end.
+  - cbn [w upd_backends upd_rep upd_w]. rewrite wget_wset.
+    destruct (Nat.eqb a x) eqn:E.
+    + apply Nat.eqb_eq in E. subst. rewrite Ho. rewrite w_stop_monitoring. cbn.
+      destruct (Nat.eqb (length (replicas s)) 1 && fe_up s); reflexivity.
+    + rewrite w_stop_monitoring. cbn. destruct (Nat.eqb (length (replicas s)) 1 && fe_up s); reflexivity.
+  - cbn. destruct (Nat.eqb (length (replicas s)) 1 && fe_up s); reflexivity.
+Qed.
+
+Lemma keeps_handle_error : forall {A} (g : frep -> A) errs s x,
+  g (wget (w (fst (handle_error_nolock s errs))) x) = g (wget (w s) x).
+Proof.
+  intros A g errs s x. unfold handle_error_nolock. cbn [fst].
+  revert s. induction errs as [|a t IH]; intros s; cbn; [reflexivity|]. rewrite IH, w_set_mode. reflexivity.
+Qed.
+
+Lemma keeps_remove_all : forall {A} (g : frep -> A), data_invariant g ->
+  forall errs s fs x, g (wget (w (remove_all s fs errs)) x) = g (wget (w s) x).
+Proof.
+  intros A g Hg errs. unfold remove_all. induction errs as [|a t IH]; intros s fs x; cbn; [reflexivity|].
+  rewrite IH. apply keeps_remove_replica. exact Hg.
+Qed.
+
+(** the fan-out: every writer that does not fail before applying gets the write appended *)
+Lemma fanout_applied : forall ws s wid fs x,
+  NoDup ws ->
+  f_applied (wget (w (fold_left (fun acc a => if flt fs a KWrite then acc else upd_rep acc a (fun f => f_apply f wid)) ws s)) x)
+  = if existsb (Nat.eqb x) ws && negb (flt fs x KWrite) then f_applied (wget (w s) x) ++ [wid] else f_applied (wget (w s) x).
+Proof.
+  induction ws as [|a t IH]; intros s wid fs x Hn; cbn [fold_left existsb]; [reflexivity|].
+  inversion Hn as [|y ys Hy Hd]; subst.
+  rewrite IH by exact Hd.
+  destruct (Nat.eqb x a) eqn:E.
+  - apply Nat.eqb_eq in E. subst x.
+    assert (Ht : existsb (Nat.eqb a) t = false).
+    { destruct (existsb (Nat.eqb a) t) eqn:Ex; [|reflexivity]. apply existsb_exists in Ex.
+      destruct Ex as [z [Hz Hez]]. apply Nat.eqb_eq in Hez. subst. contradiction. }
+    rewrite Ht. cbn [orb andb].
+    destruct (flt fs a KWrite); cbn [negb andb]; [reflexivity|].
+    unfold upd_rep. cbn [w upd_w]. rewrite wget_wset, Nat.eqb_refl. reflexivity.
+  - cbn [orb].
+    destruct (flt fs a KWrite); [reflexivity|].
+    unfold upd_rep. cbn [w upd_w]. rewrite wget_wset.
+    assert (E' : Nat.eqb a x = false) by (rewrite Nat.eqb_sym; exact E). rewrite E'. reflexivity.
+Qed.
+
+Lemma writers_nodup : forall s, struct_ok s -> NoDup (writers s).
+Proof.
+  intros s H. unfold writers.
+  pose proof (st_nodup s H) as Hn. rewrite <- (st_mirror s H), keys_proj in Hn.
+  unfold keys in Hn. clear - Hn. induction (backends s) as [|[k [m i]] t IH]; cbn in *; [constructor|].
+  inversion Hn as [|x xs Hx Hd]; subst.
+  destruct (negb (mode_eqb m ERR)); cbn; [|apply IH; exact Hd].
+  constructor; [|apply IH; exact Hd].
+  intro Hin. apply Hx. apply in_map_iff in Hin. destruct Hin as [p [Hp Hin]]. apply filter_In in Hin.
+  destruct Hin as [Hin _]. rewrite <- Hp. apply in_map. exact Hin.
+Qed.
+
+(** every writer that is still listed after an acknowledged (or any) write and did not fail it holds it *)
+Theorem write_survivors_hold_it : forall s wid off len fs x,
+  struct_ok s -> ro s = false -> avail s = true -> 0 <= off -> off + len <= csize s ->
+  In x (writers s) -> flt fs x KWrite = false ->
+  In wid (f_applied (wget (w (fst (do_write s wid off len fs))) x)).
+Proof.
+  intros s wid off len fs x H Hro Hav Ho Hl Hin Hf. unfold do_write. rewrite Hro, Hav.
+  assert (E : (off <? 0) || (csize s <? off + len) = false).
+  { apply orb_false_iff. split; [apply Z.ltb_ge; lia|apply Z.ltb_ge; lia]. }
+  rewrite E. cbn [negb].
+  set (s1 := fold_left _ (writers s) s).
+  assert (A1 : In wid (f_applied (wget (w s1) x))).
+  { subst s1. rewrite fanout_applied by (apply writers_nodup; exact H).
+    assert (Ex : existsb (Nat.eqb x) (writers s) = true) by (apply existsb_exists; exists x; split; [exact Hin|apply Nat.eqb_refl]).
+    rewrite Ex, Hf. cbn. apply in_or_app. right. left. reflexivity. }
+  destruct (io_errs (writers s) fs KWrite KWriteAp) as [|e es]; [exact A1|].
+  pose proof (keeps_handle_error f_applied (e :: es) s1 x) as K1.
+  destruct (handle_error_nolock s1 (e :: es)) as [s2 sup]. cbn [fst] in *.
+  rewrite (keeps_remove_all f_applied di_applied). rewrite K1. exact A1.
+Qed.
+
+(** whoever is in service after the write was a writer of it *)
+Lemma in_service_after_write_was_writer : forall s wid off len fs x m,
+  struct_ok s ->
+  aget (replicas (fst (do_write s wid off len fs))) x = Some m -> m <> ERR ->
+  In x (keys (replicas s)).
+Proof.
+  intros s wid off len fs x m H Hg Hm.
+  assert (Hin : In x (keys (replicas (fst (do_write s wid off len fs))))).
+  { clear - Hg. induction (replicas (fst (do_write s wid off len fs))) as [|[k v] t IH]; cbn in *; [discriminate|].
+    destruct (Nat.eqb k x) eqn:E; [left; apply Nat.eqb_eq; exact E|right; apply IH; exact Hg]. }
+  pose proof (enter_only_by_add_or_start s (Write wid off len fs) x) as G. cbn [step] in G.
+  destruct (do_write s wid off len fs) as [s1 r]. cbn [fst] in *.
+  destruct (in_dec Nat.eq_dec x (keys (replicas s))) as [Hi|Hni]; [exact Hi|].
+  exfalso. exact (G Hin Hni).
+Qed.
+
+(** *** a failing minority does not surface: if the writers that do not fail are a strict majority and
+    one of them is RW, the write is acknowledged *)
+Lemma count_rw_pos : forall l a, aget l a = Some RW -> (0 < count_rw l)%nat.
+Proof.
+  unfold count_rw. induction l as [|[k v] t IH]; intros a H; cbn in *; [discriminate|].
+  destruct (Nat.eqb k a).
+  - inversion H; subst. cbn. lia.
+  - specialize (IH a H). destruct (is_rw v); cbn; lia.
+Qed.
+
+Lemma aget_setm_other : forall l a m x, x <> a -> aget (map (setm a m) l) x = aget l x.
+Proof.
+  induction l as [|[k v] t IH]; intros a m x Hx; cbn; [reflexivity|].
+  unfold setm at 1. cbn. destruct (Nat.eqb k a) eqn:E; cbn.
+  - apply Nat.eqb_eq in E. subst k. destruct (Nat.eqb a x) eqn:E2; [apply Nat.eqb_eq in E2; subst; contradiction|apply IH; exact Hx].
+  - destruct (Nat.eqb k x); [reflexivity|apply IH; exact Hx].
+Qed.
+
+Lemma aget_set_mode_other : forall s a m x, x <> a -> aget (replicas (set_mode_nolock s a m)) x = aget (replicas s) x.
+Proof.
+  intros s a m x Hx. destruct (replicas_set_mode s a m) as [R|R]; rewrite R; [reflexivity|].
+  apply aget_setm_other. exact Hx.
+Qed.
+
+Lemma handle_error_keeps_others : forall errs s x, ~ In x errs ->
+  aget (replicas (fst (handle_error_nolock s errs))) x = aget (replicas s) x.
+Proof.
+  intros errs s x. unfold handle_error_nolock. cbn [fst].
+  revert s. induction errs as [|a t IH]; intros s Hn; cbn; [reflexivity|].
+  rewrite IH by (intro Hi; apply Hn; right; exact Hi).
+  apply aget_set_mode_other. intro E. apply Hn. left. symmetry. exact E.
+Qed.
+
+Theorem write_minority_failure_acked : forall s wid off len fs x,
+  struct_ok s -> ro s = false -> avail s = true -> 0 <= off -> off + len <= csize s ->
+  majority_ok (length (writers s)) (length (io_errs (writers s) fs KWrite KWriteAp)) = true ->
+  aget (replicas s) x = Some RW -> ~ In x (io_errs (writers s) fs KWrite KWriteAp) ->
+  snd (do_write s wid off len fs) = ROk.
+Proof.
+  intros s wid off len fs x H Hro Hav Ho Hl Hmaj Hrw Hnx. unfold do_write. rewrite Hro, Hav.
+  assert (E : (off <? 0) || (csize s <? off + len) = false).
+  { apply orb_false_iff. split; [apply Z.ltb_ge; lia|apply Z.ltb_ge; lia]. }
+  rewrite E. cbn [negb].
+  set (s1 := fold_left _ (writers s) s).
+  assert (R1 : replicas s1 = replicas s).
+  { subst s1. apply sst_fold_left. intros t y. destruct (flt fs y KWrite); [apply sst_refl|apply sst_upd_rep]. }
+  destruct (io_errs (writers s) fs KWrite KWriteAp) as [|e es] eqn:Ee; [reflexivity|].
+  rewrite Hmaj.
+  pose proof (handle_error_keeps_others (e :: es) s1 x Hnx) as K.
+  rewrite R1, Hrw in K.
+  destruct (handle_error_nolock s1 (e :: es)) as [s2 sup] eqn:Eh. cbn [fst] in K.
+  assert (Hsup : sup = true).
+  { unfold handle_error_nolock in Eh. inversion Eh as [[Hs2 Hsp]]. apply Nat.ltb_lt.
+    eapply count_rw_pos. rewrite Hs2. exact K. }
+  rewrite Hsup. reflexivity.
+Qed.
